@@ -28,9 +28,15 @@ func (vm *ValidatorManager) IsNeighbor(key types.Ed25519Public) bool {
 	}
 
 	if peerIdx, ok := vm.Grid.FindIndex(key); ok {
-		return vm.Grid.IsNeighborInEpoch(vm.SelfIndex, peerIdx)
+		if peerIdx == vm.SelfIndex {
+			return false // a validator is never its own neighbour
+		}
+		if vm.Grid.IsNeighborInEpoch(vm.SelfIndex, peerIdx) {
+			return true
+		}
 	}
-	// Not in current set: may still be a grid neighbour at the same index in Previous/Next epoch.
+	// Not a row/column neighbour in the current set (or not in it at all): may still be a grid
+	// neighbour at the same index in the Previous/Next epoch, as AllNeighborValidators reports.
 	return vm.Grid.IsSameIndexCrossEpoch(vm.SelfIndex, key)
 }
 
